@@ -21,7 +21,7 @@ import (
 // their "changed" marks are reset before every run (cobra keeps them between
 // executions of one process).
 //
-//	cli-subseq:   goalign subseq -i in.fa -o out.fa -s X -l Y [--ref-seq Ref] [-r]
+//	cli-subseq:   goalign subseq -i in.fa -o out.fa -s X -l Y [--ref-seq Ref] [-r] [--step Z: sliding windows, files out_sub<k>.fa]
 //	cli-subsites: goalign subsites -i in.fa -o out.fa --sitefile sites.txt [--ref-seq Ref] [-r]
 //	cli-split:    goalign split -i in.fa --partition part.txt -o <dir>/sp_   (Build: ranges | modulo)
 //	cli-concat:   goalign concat -i in.fa -o out.fa -l log.txt in2.fa
@@ -227,6 +227,15 @@ func (r *c04Run) subseq(in rows) {
 	if cs.Flag {
 		args = append(args, "-r")
 	}
+	if cs.Z > 0 {
+		// sliding windows: starts X, X+Z, ... while the window ends inside the alignment; the first window is
+		// judged as without --step, window k > 0 is written to out_sub<k>.fa
+		args = append(args, "--step", strconv.Itoa(cs.Z))
+		r.op = "cli-subseq-step"
+		for k := 1; k <= L+2; k++ {
+			os.Remove(r.path(fmt.Sprintf("out_sub%d.fa", k)))
+		}
+	}
 	// candidate windows on the alignment, the first is the one the statement asks for
 	var wins [][2]int
 	class := ""
@@ -296,6 +305,29 @@ func (r *c04Run) subseq(in rows) {
 		default:
 			r.k.viol(r.op, "unexpected-error", err.Error())
 		}
+		return
+	}
+	if cs.Z > 0 && cs.Ref == "" {
+		if r.output("out.fa", want...) < 0 {
+			return
+		}
+		k := 1
+		for st := cs.X + cs.Z; st+cs.Y <= L; st += cs.Z {
+			cols := c04Range(st, cs.Y)
+			if cs.Flag {
+				cols = c04Complement(L, cols)
+			}
+			if r.output(fmt.Sprintf("out_sub%d.fa", k), c04Pick(in, cols)) < 0 {
+				return
+			}
+			k++
+		}
+		if _, e := os.Stat(r.path(fmt.Sprintf("out_sub%d.fa", k))); e == nil {
+			r.k.viol(r.op, "window-beyond-the-end", fmt.Sprintf("out_sub%d.fa was written: its window would start at %d and end after the alignment (length %d)", k, cs.X+k*cs.Z, L))
+			return
+		}
+		r.k.c.Outcome(fmt.Sprintf("cli-subseq-step:ok:%d-windows", min(k, 4)))
+		r.k.c.Nontrivial("cli-subseq-step|" + in.String() + "|" + fmt.Sprint(cs.X, cs.Y, cs.Z, cs.Flag))
 		return
 	}
 	if r.output("out.fa", want...) >= 0 {
@@ -621,6 +653,11 @@ func c04RunCLIAll(maxList int) func(c *mc.Ctx, seqs []string) {
 				for s := -1; s <= L+1; s++ {
 					for l := -1; l <= L+1; l++ {
 						c04Check(c, c04Case{Op: "cli-subseq", Seqs: seqs, X: s, Y: l, Ref: ref, Flag: rev})
+						if ref == "" {
+							for step := 1; step <= 3; step++ {
+								c04Check(c, c04Case{Op: "cli-subseq", Seqs: seqs, X: s, Y: l, Z: step, Flag: rev})
+							}
+						}
 					}
 				}
 				c04ForLists(L, listLen, func(sites []int) {
